@@ -5,6 +5,8 @@ pub struct Capture {
     saved1: i32,
     saved2: i32,
     fd: i32,
+    /// master side when fds 1 and 2 were pointed at a pseudo-terminal (then `fd` is the slave)
+    master: i32,
 }
 
 impl Capture {
@@ -21,12 +23,70 @@ impl Capture {
             if saved1 < 0 || saved2 < 0 || libc::dup2(fd, 1) < 0 || libc::dup2(fd, 2) < 0 {
                 return None;
             }
-            Some(Capture { saved1, saved2, fd })
+            Some(Capture { saved1, saved2, fd, master: -1 })
+        }
+    }
+
+    /// Like `start`, but fds 1 and 2 become a pseudo-terminal: code that prints only when `is_terminal()` is then observed
+    /// too. The slave is non-blocking so that a chatty library cannot dead-lock against the unread master.
+    pub fn start_pty() -> Option<Capture> {
+        let _ = std::io::stdout().flush();
+        let _ = std::io::stderr().flush();
+        unsafe {
+            let master = libc::posix_openpt(libc::O_RDWR | libc::O_NOCTTY);
+            if master < 0 {
+                return None;
+            }
+            let mut name = [0 as libc::c_char; 128];
+            if libc::grantpt(master) != 0 || libc::unlockpt(master) != 0 || libc::ptsname_r(master, name.as_mut_ptr(), name.len()) != 0 {
+                libc::close(master);
+                return None;
+            }
+            let slave = libc::open(name.as_ptr(), libc::O_RDWR | libc::O_NOCTTY | libc::O_NONBLOCK);
+            if slave < 0 {
+                libc::close(master);
+                return None;
+            }
+            let fl = libc::fcntl(master, libc::F_GETFL);
+            libc::fcntl(master, libc::F_SETFL, fl | libc::O_NONBLOCK);
+            let saved1 = libc::dup(1);
+            let saved2 = libc::dup(2);
+            if saved1 < 0 || saved2 < 0 || libc::dup2(slave, 1) < 0 || libc::dup2(slave, 2) < 0 {
+                libc::close(master);
+                libc::close(slave);
+                return None;
+            }
+            Some(Capture { saved1, saved2, fd: slave, master })
         }
     }
 
     /// restore fds 1 and 2 and return what was written to them meanwhile
     pub fn finish(self) -> Vec<u8> {
+        if self.master >= 0 {
+            let _ = std::io::stdout().flush();
+            let _ = std::io::stderr().flush();
+            let mut out = Vec::new();
+            unsafe {
+                libc::dup2(self.saved1, 1);
+                libc::dup2(self.saved2, 2);
+                libc::close(self.saved1);
+                libc::close(self.saved2);
+                let mut buf = [0u8; 4096];
+                loop {
+                    let n = libc::read(self.master, buf.as_mut_ptr() as *mut libc::c_void, buf.len());
+                    if n <= 0 {
+                        break;
+                    }
+                    out.extend_from_slice(&buf[..n as usize]);
+                    if out.len() > 1 << 20 {
+                        break;
+                    }
+                }
+                libc::close(self.fd);
+                libc::close(self.master);
+            }
+            return out;
+        }
         // push anything Rust's line-buffered stdout still holds
         let _ = std::io::stdout().flush();
         let _ = std::io::stderr().flush();
